@@ -36,4 +36,13 @@ PROPS = {
         'not_covered': ['the `for ch in old_text.chars()` glue of shift_text (12 lines) joining the two kernels', 'canonicalize_plane1 reading the attribute and writing the text back (DOM)', 'unknown mathvariant names (two-line match arm)'],
         'explanation': 'C18 mechanism decided on its scalar kernels for their full domains',
     },
+    'C12': {
+        'verus': ['U12a'],
+        'kani': [],
+        'technique': 'Verus contracts on the real PreferenceManager setters and pref_to_string (extracted from src/prefs.rs on every run) over a mathematical-map view of the two preference maps',
+        'level_text': 'deductive proof, for every preference name, value and prior map state, that an accepted set reads back, that unknown names and wrong-kind values are rejected by all three setters, that an error leaves both maps exactly as before, that no preference ever changes kind and no new name appears, with whole-view/frame postconditions',
+        'level_note': 'assumed: HashMap = mathematical map, yaml_rust::Yaml shape, reset_files_from_preference_change and set_separators by a contract read off their code (file system side), Display formatting of bool/i64/f64; preconditions: PreferenceManager initialised (error empty), prefs.yaml provides DecimalSeparator and Language as strings',
+        'not_covered': ['language-tag normalisation and the true/false and float dispatch in interface::set_preference (string splitting, thread-local access)', 'persistence across re-reads of the preference files (time stamps)', '"affects only the outputs it is documented to affect" (rule data)'],
+        'explanation': 'preference setters and getter proved against the property clauses',
+    },
 }
